@@ -44,6 +44,7 @@ type varsStats struct {
 	Kinds      map[string]int `json:"variable_kinds"`
 	Shadowing  int            `json:"cases_with_a_name_also_in_ambient_env_or_dotenv"`
 	Refs       int            `json:"template_references"`
+	SpacedRefs int            `json:"template_references_with_blanks_inside_the_delimiters"`
 	Errors     int            `json:"cases_with_failing_exec"`
 	Samples    []string       `json:"samples"`
 	OracleFail map[string]int `json:"oracle_failures"`
@@ -195,7 +196,13 @@ func varsCmd(args []string) error {
 			var text strings.Builder
 			var se []string
 			for _, s := range segs {
-				if s.ref {
+				if s.ref && k%3 == 1 {
+					// the same reference written with blanks inside the delimiters, as text/template allows
+					sp := []string{"{{ ." + s.text + " }}", "{{\t." + s.text + "}}", "{{." + s.text + "  }}"}[(k/3+len(se))%3]
+					text.WriteString(sp)
+					se = append(se, "L"+hx(sp))
+					st.SpacedRefs++
+				} else if s.ref {
 					text.WriteString("{{." + s.text + "}}")
 					se = append(se, "R"+hx(s.text))
 				} else {
